@@ -1139,6 +1139,7 @@ func scenEveryLength(st *ekit.Stats, tier string) {
 	if tier == "thorough" {
 		max = 1100
 	}
+	st.Note = fmt.Sprintf("every body length 0..%d, all 16 pairings x 6 transports", max)
 	cells := eachCell("every-length", 0, trans, kinds, func(c *cell) {
 		for _, d := range c.k.dirsForData() {
 			for lo := 0; lo <= max; lo += 8 {
@@ -1185,11 +1186,13 @@ func scenPairs(st *ekit.Stats, tier string) {
 }
 
 func scenTriples(st *ekit.Stats, tier string) {
+	ks := kinds
+	st.Note = "all 16 pairings"
 	if tier != "thorough" {
-		st.Note = "thorough tier only"
-		return
+		ks = []*kind{kindByName("pair"), kindByName("reqrep")}
+		st.Note = "quick tier: pair and reqrep only"
 	}
-	cells := eachCell("ordered-triples", 0, trans, kinds, func(c *cell) {
+	cells := eachCell("ordered-triples", 0, trans, ks, func(c *cell) {
 		for _, d := range c.k.dirsForData() {
 			for _, a := range c.k.alphabet() {
 				for _, b := range c.k.alphabet() {
@@ -1204,11 +1207,12 @@ func scenTriples(st *ekit.Stats, tier string) {
 }
 
 func scenEveryLength8k(st *ekit.Stats, tier string) {
-	if tier != "thorough" {
-		st.Note = "thorough tier only"
-		return
-	}
 	ks := []*kind{kindByName("pair"), kindByName("reqrep"), kindByName("xreqxrep"), kindByName("pubsub"), kindByName("xstar")}
+	st.Note = "every body length 1101..8300; pair, reqrep, xreqxrep, pubsub, xstar"
+	if tier != "thorough" {
+		ks = ks[:1]
+		st.Note = "every body length 1101..8300; quick tier: pair only"
+	}
 	cells := eachCell("every-length-8k", 0, trans, ks, func(c *cell) {
 		for _, d := range c.k.dirsForData() {
 			for lo := 1101; lo <= 8300; lo += 8 {
@@ -1228,15 +1232,18 @@ func scenEveryLength8k(st *ekit.Stats, tier string) {
 }
 
 func scenEveryLength64k(st *ekit.Stats, tier string) {
+	hi := 65600
+	st.Note = "pair, A->B, every body length 8301..65600"
 	if tier != "thorough" {
-		st.Note = "thorough tier only"
-		return
+		hi = 16500
+		st.Note = "pair, A->B, quick tier: every body length 8301..16500"
 	}
 	cells := eachCell("every-length-64k", 0, trans, []*kind{kindByName("pair")}, func(c *cell) {
-		for lo := 8301; lo <= 65600; lo += 4 {
+		for lo := 8301; lo <= hi; lo += 4 {
 			var g []int
 			var keys []string
-			for n := lo; n < lo+4 && n <= 65600; n++ {
+			keys = append(keys, fmt.Sprintf("dir0/lengths-%dk", lo/4096*4))
+			for n := lo; n < lo+4 && n <= hi; n++ {
 				g = append(g, n)
 				if ck := classKey(n); ck != "" {
 					keys = append(keys, "dir0/"+ck)
